@@ -6,38 +6,39 @@
 # passes with it, demo.sh passes (exit 0) without the change and fails (exit !=0) with it.  Then stores it under seeded/.
 set -u
 SRC="$1"; ID="$2"
-WT=/tmp/cm/wt
-mkdir -p /tmp/cm
+CM=/tmp/cm/$ID
+WT=$CM/wt
+mkdir -p $CM
 if [ ! -d "$WT" ]; then
   git -C /repo worktree add -q --detach "$WT" HEAD || exit 3
 fi
 cd "$WT" && git checkout -q --detach "$(git -C /repo rev-parse HEAD)" && git checkout -q -- . || exit 3
 cmake -G Ninja -S . -B _build -DCMAKE_BUILD_TYPE=RelWithDebInfo >/dev/null && cmake --build _build -j8 >/dev/null 2>&1 || { echo "baseline build failed"; exit 3; }
-cp _build/uncrustify /tmp/cm/unc_orig
-( cd "$SRC" && bash ./demo.sh /tmp/cm/unc_orig ) > /tmp/cm/demo_without.txt 2>&1; RC0=$?
+cp _build/uncrustify $CM/unc_orig
+( cd "$SRC" && bash ./demo.sh $CM/unc_orig ) > $CM/demo_without.txt 2>&1; RC0=$?
 git apply "$SRC/patch.diff" || { echo "patch does not apply"; exit 3; }
-cmake --build _build -j8 >/tmp/cm/build.txt 2>&1 || { echo "mutant build failed"; git checkout -q -- .; exit 3; }
-( cd "$SRC" && bash ./demo.sh "$WT/_build/uncrustify" ) > /tmp/cm/demo_with.txt 2>&1; RC1=$?
-ctest --test-dir _build -j8 --timeout 900 > /tmp/cm/ctest.txt 2>&1; RCT=$?
+cmake --build _build -j8 >$CM/build.txt 2>&1 || { echo "mutant build failed"; git checkout -q -- .; exit 3; }
+( cd "$SRC" && bash ./demo.sh "$WT/_build/uncrustify" ) > $CM/demo_with.txt 2>&1; RC1=$?
+ctest --test-dir _build -j${CTJ:-8} --timeout 900 > $CM/ctest.txt 2>&1; RCT=$?
 git checkout -q -- .
-echo "$ID: demo_without rc=$RC0 demo_with rc=$RC1 ctest rc=$RCT ($(grep -E 'tests passed|tests failed' /tmp/cm/ctest.txt | tail -1))"
+echo "$ID: demo_without rc=$RC0 demo_with rc=$RC1 ctest rc=$RCT ($(grep -E 'tests passed|tests failed' $CM/ctest.txt | tail -1))"
 if [ $RC0 -eq 0 ] && [ $RC1 -ne 0 ] && [ $RCT -eq 0 ]; then
   D=/verif/seeded/$ID
   mkdir -p "$D"
   cp -r "$SRC"/. "$D"/
-  python3 - "$D" "$RC0" "$RC1" <<'PY'
+  python3 - "$D" "$RC0" "$RC1" "$CM" <<'PY'
 import json, sys, os
-d, rc0, rc1 = sys.argv[1:4]
+d, rc0, rc1, cm = sys.argv[1:5]
 p = os.path.join(d, 'meta.json')
 try:
     m = json.load(open(p))
 except Exception:
     m = {}
-m['confirmed'] = {'by': 'tools/confirm_mutant.sh in scratch worktree /tmp/cm/wt (removed afterwards)',
+m['confirmed'] = {'by': 'tools/confirm_mutant.sh in a scratch worktree under /tmp/cm (removed afterwards)',
                   'repo_head': os.popen('git -C /repo rev-parse --short HEAD').read().strip(),
                   'demo_without_change_rc': int(rc0), 'demo_with_change_rc': int(rc1),
-                  'ctest': open('/tmp/cm/ctest.txt').read().strip().splitlines()[-3:],
-                  'demo_with_change_output': open('/tmp/cm/demo_with.txt').read()[-1500:]}
+                  'ctest': open(cm + '/ctest.txt').read().strip().splitlines()[-3:],
+                  'demo_with_change_output': open(cm + '/demo_with.txt').read()[-1500:]}
 json.dump(m, open(p, 'w'), indent=1)
 PY
   echo "CONFIRMED -> $D"
@@ -45,3 +46,4 @@ else
   echo "NOT CONFIRMED"
   exit 1
 fi
+
